@@ -252,6 +252,13 @@ func (h *H) Quiesce(gatesOpen bool) {
 	vrt.Quiesce()
 	s := h.ev("mark", "quiet", -1, "")
 	h.Quiets = append(h.Quiets, Quiet{Seq: s, GatesOpen: gatesOpen})
+	if dumpEvents {
+		for _, w := range h.Ws {
+			if w.Wk != nil {
+				h.ev("mark", fmt.Sprintf("state %s idle=%d proc=%d pend=%d conc=%d poolGoroutines=%d", w.Wk.Status(), w.Wk.NumIdleWorkers(), w.Wk.NumProcessing(), w.Wk.NumPending(), w.Wk.NumConcurrency(), vrt.LiveLib("initPoolNode")), -1, "")
+			}
+		}
+	}
 	h.sampleQuiet()
 }
 
